@@ -116,6 +116,28 @@ pub fn relations(ctx: &Ctx) -> Stats {
                     viol(st, "cli.preset.tsv", "tsv output differs from spc output by more than the delimiter".into(), &outs[2].2);
                     return;
                 }
+                // -H together with a preset: the column line uses the preset's delimiter too
+                for (preset, delim) in [("csv", ","), ("tsv", "\t")] {
+                    let o = sc.path(&format!("o-H-{}.txt", preset));
+                    let a = base_args(&o, &["-H", "-p", preset]);
+                    if let Some(r) = go(ctx, st, &a, None) {
+                        if !r.ok() {
+                            viol(st, "cli.oligo.exit", format!("[-H -p {}] {}", preset, r.describe()), &a);
+                            return;
+                        }
+                        let d = std::fs::read(&o).unwrap_or_default();
+                        let first = d.split(|&b| b == b'\n').next().unwrap_or(&[]).to_vec();
+                        if first != cols(k).names.join(delim).into_bytes() {
+                            viol(st, "cli.header.preset_delimiter", format!("-H -p {}: the header line is not the k-mer list joined by the preset's delimiter", preset), &a);
+                            return;
+                        }
+                        let body_mapped: Vec<u8> = d[(first.len() + 1).min(d.len())..].iter().map(|&b| if b == delim.as_bytes()[0] { b' ' } else { b }).collect();
+                        if body_mapped != spc {
+                            viol(st, "cli.header.extra_change", format!("-H -p {} changes the rows", preset), &a);
+                            return;
+                        }
+                    }
+                }
                 // -H adds exactly one leading line
                 let h = &outs[4].1;
                 let first_nl = h.iter().position(|&b| b == b'\n').map(|p| p + 1).unwrap_or(h.len());
@@ -449,6 +471,61 @@ pub fn relations(ctx: &Ctx) -> Stats {
         }
         if idx % 9 == 0 {
             st.sample(Json::obj().set("relation_group", Json::s(["oligo", "oligo -c", "cgr -k", "cgr", "cov", "cov --alt-input", "ctr", "min"][group as usize])).set("records", Json::u(recs.len())));
+        }
+    })
+}
+
+/// `-t` on inputs of thousands of records (ordered outputs): byte equality between -t 1 and -t N for
+/// comp oligo (default, -c, stdin), comp cgr -k and cov
+pub fn threads_manyrecs(ctx: &Ctx) -> Stats {
+    let n = ctx.n(4, 40);
+    par_cases(ctx, n, |idx, st| {
+        let mut rng = Rng::keyed(ctx.seed, "c15.threads_manyrecs", idx);
+        let nrec = rng.usize(1500, 9000);
+        let recs = super::c05::many_records(&mut rng, nrec);
+        let nrec = recs.len();
+        let sc = Scratch::new(ctx, "c15m");
+        let inp = sc.write("in.fa", &ser::to_fasta(&recs, &SerOpts::plain()));
+        let raw = std::fs::read(&inp).unwrap();
+        st.case(true, mix(idx) ^ hash_bytes(&recs[0].seq) ^ mix(nrec as u64));
+        let which = idx % 5;
+        st.class(["oligo", "oligo -c", "oligo stdin", "cgr -k", "cov"][which as usize]);
+        let mk = |o: &str, t: &str| -> (Vec<String>, bool, bool) {
+            match which {
+                0 => (sv(&["comp", "oligo", "-i", &inp, "-o", o, "-k", "3", "-t", t]), false, false),
+                1 => (sv(&["comp", "oligo", "-i", &inp, "-o", o, "-k", "3", "-c", "-H", "-t", t]), false, false),
+                2 => (sv(&["comp", "oligo", "-i", "-", "-o", o, "-k", "4", "-t", t]), true, false),
+                3 => (sv(&["comp", "cgr", "-i", &inp, "-o", o, "-k", "3", "-c", "-t", t]), false, false),
+                _ => (sv(&["cov", "-i", &inp, "-o", o, "-k", "9", "-s", "5", "-c", "6", "-t", t]), false, true),
+            }
+        };
+        let mut outs: Vec<Vec<u8>> = Vec::new();
+        for (j, t) in ["1", "8", "16", "3"].iter().enumerate() {
+            let o = sc.path(&format!("o{}", j));
+            let (a, stdin, dir) = mk(&o, t);
+            let r = match go(ctx, st, &a, if stdin { Some(&raw) } else { None }) {
+                Some(r) => r,
+                None => return,
+            };
+            if !r.ok() {
+                st.violate("cli.manyrecs.exit", r.describe(), Json::obj().set("argv", Json::s(a.join(" "))).set("n_records", Json::u(nrec)));
+                return;
+            }
+            outs.push(std::fs::read(if dir { format!("{}/kmers.vectors", o) } else { o.clone() }).unwrap_or_default());
+            if j > 0 && outs[j] != outs[0] {
+                st.violate(
+                    "cli.threads.changes_result:manyrecs",
+                    format!("-t {} gives different bytes than -t 1 on {} records ({} vs {} bytes)", t, nrec, outs[j].len(), outs[0].len()),
+                    Json::obj().set("argv", Json::s(a.join(" "))).set("n_records", Json::u(nrec)).set("records", recs_json(&recs)),
+                );
+                return;
+            }
+        }
+        if lines(&outs[0]).len() != nrec + if which == 1 { 1 } else { 0 } {
+            st.violate("cli.manyrecs.rowcount", format!("{} lines for {} records", lines(&outs[0]).len(), nrec), Json::obj().set("n_records", Json::u(nrec)));
+        }
+        if idx % 3 == 0 {
+            st.sample(Json::obj().set("what", Json::s(["oligo", "oligo -c -H", "oligo stdin", "cgr -k -c", "cov"][which as usize])).set("n_records", Json::u(nrec)).set("threads", Json::s("1, 8, 16, 3")));
         }
     })
 }
